@@ -18,7 +18,7 @@ from geometer.base import KroneckerDelta, LeviCivitaTensor, Tensor, TensorCollec
 from . import snapshot
 
 DT = {"i": np.int64, "f": np.float64, "c": np.complex128, "i32": np.int32, "f32": np.float32, "b": np.bool_,
-      "i8": np.int8, "i16": np.int16, "f16": np.float16}
+      "i8": np.int8, "i16": np.int16, "f16": np.float16, "u8": np.uint8}
 
 # ---------------------------------------------------------------------------------------------------------
 # independent definitions of epsilon / delta
@@ -89,6 +89,7 @@ def evict_caches(which: int = 3) -> None:
 def canonical_start(warm: list) -> None:
     """Put process-wide state into a seed-determined state: caches cleared then pre-warmed in the given order."""
     reset_process_state()
+    restore_globals()
     evict_caches(3)
     for w in warm:
         if w[0] == "e":
@@ -290,7 +291,74 @@ def init_globals() -> None:
     global GLOBALS, _GLOBAL_SNAPS
     GLOBALS = discover_globals()
     _GLOBAL_SNAPS = [snapshot.snap(o) for _n, o in GLOBALS]
+    _GLOBAL_BACKUPS[:] = [_backup(o) for _n, o in GLOBALS]
     discover_containers()
+    discover_public_bindings()
+
+
+PUBLIC_BINDINGS: list[tuple[str, object, str, object]] = []   # (name, owner, attribute, snapshot at start-up)
+
+
+def discover_public_bindings() -> None:
+    """Module- and class-level names without a leading underscore that are bound to data (EQ_TOL_ABS, I, infty, the
+    ufunc tables, ...): the package's constants. Neither their value nor what they are bound to may change; private
+    names (`_cache`, memo variables) are state the library may manage as it likes and are judged through answers."""
+    import sys
+    import types as _t
+
+    PUBLIC_BINDINGS.clear()
+    for owner, attr, obj, _arr in BINDINGS:
+        if attr.startswith("_") or not isinstance(owner, (_t.ModuleType, type)):
+            continue
+        if isinstance(owner, _t.ModuleType) and attr in ("annotations", "TYPE_CHECKING"):
+            continue
+        oname = owner.__name__.replace("geometer.", "") if isinstance(owner, _t.ModuleType) else \
+            f"{owner.__module__.replace('geometer.', '')}.{owner.__name__}"
+        PUBLIC_BINDINGS.append((f"{oname}.{attr}", owner, attr, snapshot.snap(obj)))
+
+
+_MISSING = object()
+
+
+_GLOBAL_BACKUPS: list = []
+
+
+def _backup(o):
+    import copy
+
+    if isinstance(o, np.ndarray):
+        return o.copy()
+    return {k: (v.copy() if isinstance(v, np.ndarray) else copy.deepcopy(v)) for k, v in o.__dict__.items()}
+
+
+def restore_globals() -> None:
+    """Put every module constant / default argument back to what it was at start-up (contents of arrays in place, so
+    that aliases stay aliases; everything else by value). Called at the start of every run: a constant damaged by one
+    run (reported there) must not be found damaged by the next one."""
+    import copy
+
+    for (_name, o), s, b in zip(GLOBALS, _GLOBAL_SNAPS, _GLOBAL_BACKUPS):
+        try:
+            if snapshot.snap(o) == s:
+                continue
+            if isinstance(o, np.ndarray):
+                o.flags.writeable = True
+                o[...] = b
+                continue
+            d = o.__dict__
+            for k in [k for k in d if k not in b]:
+                del d[k]
+            for k, v in b.items():
+                cur = d.get(k)
+                if isinstance(v, np.ndarray) and isinstance(cur, np.ndarray) and cur.shape == v.shape \
+                        and cur.dtype == v.dtype:
+                    cur[...] = v
+                elif isinstance(v, np.ndarray):
+                    d[k] = v.copy()
+                else:
+                    d[k] = copy.deepcopy(v)
+        except Exception:  # noqa: BLE001
+            pass
 
 
 def check_globals() -> list[tuple[str, str, str]]:
@@ -301,6 +369,16 @@ def check_globals() -> list[tuple[str, str, str]]:
             for path, kind in snapshot.diff(s, s2):
                 if kind != "fill":
                     bad.append((name, path, kind))
+    for name, owner, attr, s in PUBLIC_BINDINGS:
+        cur = vars(owner).get(attr, _MISSING)
+        if cur is _MISSING:
+            bad.append((name, "", "constant-removed"))
+            continue
+        s2 = snapshot.snap(cur)
+        if s2 != s:
+            d = [(p_, k_) for p_, k_ in snapshot.diff(s, s2) if k_ != "fill"] or [("", "constant-rebound")]
+            for path, kind in d[:3]:
+                bad.append((name, path, "constant-" + kind if not kind.startswith("constant") else kind))
     return bad
 
 
